@@ -100,6 +100,13 @@ def determine_right_operand_type(
                     f"field {json.dumps(field_to_aggregate)} not found on object type {json.dumps(ref_type_details.object_type_ref)}"
                 )
 
+            if ref_type_details.is_list:
+                # the field is collected from every object in the list
+                if field_type_to_aggregate.is_list:
+                    raise Exception("nested list types are not supported")
+
+                field_type_to_aggregate.is_list = True
+
         if not field_type_to_aggregate.is_list:
             raise Exception("cannot aggregate non-list type")
 
@@ -136,10 +143,11 @@ def determine_right_operand_type(
             )
 
         if operator in ["FIRST", "LAST"]:
+            # one item of the aggregated list
             return TypeDetails(
                 is_list=False,
-                item_type=ref_type_details.item_type,
-                object_type_ref=ref_type_details.object_type_ref,
+                item_type=field_type_to_aggregate.item_type,
+                object_type_ref=field_type_to_aggregate.object_type_ref,
             )
         else:
             return TypeDetails(
